@@ -255,6 +255,10 @@ class ExprMixin:
     def to_text(self, v, st, conv="s"):
         """str(v) / repr(v) as a String term"""
         k = v.ty.kind
+        if k == "opt":
+            return smt.Ite(v.ts[0], smt.Str("None"), self.to_text(opt_inner(v), st, conv))
+        if k == "none":
+            return smt.Str("None")
         if conv == "s" and k in ("str", "tstr"):
             return v.ts[0]
         if k == "int":
